@@ -810,6 +810,19 @@ def run_sequence(cx):
         ap = [s for s in fn.stmts((ast.Expr, ast.Assign)) if "('%s'" % name in ast.unparse(s) and 'table' in ast.unparse(s).lower()]
         ok = len(ap) == 1 and fn.parent.get(id(ap[0])) is fn.ast
         fn.ob('SEQ', 'sheet %s is always written' % name, ok, ap[0] if ap else fn.ast, key='sheet-' + name)
+    # closed world: run() calls nothing but the documented steps (a new call - creating folders, checking paths, converting
+    # a table - may fail or have effects before the workbook is written and is a new step to be decided by a human)
+    RUN_CALLS = {'read_table', 'process_beads_table', 'add_beads_stats', 'process_samples_table', 'add_samples_stats',
+                 'generate_histograms_table', 'generate_about_table', 'write_workbook', 'show_open_file_dialog',
+                 'os.path.split', 'os.path.splitext', 'os.path.join', 'print', 'plt.show', 'time.time', 'time.sleep'}
+    for c in fn.calls():
+        d = dotted(c.func)
+        if d is None and isinstance(c.func, ast.Attribute):
+            d = '<value>.' + c.func.attr
+        okc = d in RUN_CALLS or (d or '').endswith('.format') or (d or '').endswith('.append')
+        if not okc:
+            fn.ob('SEQ', 'run() performs the documented calls only', False, c, detail='undocumented call `%s`' % (d or norm_stmt(c)), key='callset|' + (d or '?'))
+    fn.ob('SEQ', 'run() performs the documented calls only (closed set of callees)', True, fn.ast, key='callset')
     # default output path next to the input
     inventory(fn, 'SEQ', [
         ('default output name', "OF = '{}_output.xlsx'.format(NOEXT)"),
@@ -836,15 +849,12 @@ def read_write(cx):
         ('the file is read into memory first', 'MEM = six.BytesIO(F.read())'),
         ('first engine: openpyxl', "KW['engine'] = 'openpyxl'"),
         ('second engine xlrd (pandas does not know openpyxl)', "KW['engine'] = 'xlrd'"),
-        ('second engine xlrd (openpyxl cannot be imported)', "KW['engine'] = 'xlrd'"),
-        ('second engine xlrd (openpyxl refuses the file type)', "KW['engine'] = 'xlrd'"),
-        ('second engine xlrd (not a zip archive)', "KW['engine'] = 'xlrd'"),
+        ('second engine xlrd (openpyxl cannot be imported, refuses the file type, or the file is not a zip archive: one handler in canonical form)',
+         "KW['engine'] = 'xlrd'"),
         ('the engine the caller asked for', "KW['engine'] = engine"),
         ('read with the first engine (openpyxl)', 'T = pd.read_excel(**KW)'),
         ('read again with xlrd when pandas does not know openpyxl', 'T = pd.read_excel(**KW)'),
-        ('read again with xlrd when openpyxl cannot be imported', 'T = pd.read_excel(**KW)'),
-        ('read again with xlrd when openpyxl refuses the file type', 'T = pd.read_excel(**KW)'),
-        ('read again with xlrd when the file is not a zip archive', 'T = pd.read_excel(**KW)'),
+        ('read again with xlrd when openpyxl cannot be imported, refuses the file type, or the file is not a zip archive', 'T = pd.read_excel(**KW)'),
         ('read with the engine the caller asked for', 'T = pd.read_excel(**KW)'),
     ], ['T', 'KW', 'MEM', 'F'])
     m = rb['__matched__']
